@@ -17,7 +17,10 @@ Inductive case :=
 
 Definition check (c : case) : bool :=
   match c with
-  | CInst fixed v ks m w => spec_ok fixed env_fixed v ks m w
+  | CInst fixed v ks m w =>
+      spec_ok fixed env_fixed v ks m w
+      (* the keys the real UConn retained are the ones the model's ApplyPreset keeps for this key_share list *)
+      && match preset_shape fixed (cv_shares v) with Some ks' => shape_eqb ks' ks | None => false end
   | CRun fixed v ks m w fl o =>
       synced v w && compliant env_fixed m w fl && matches (client_run10 fixed env_fixed v ks fl) o
       && implb (c10_cond fixed env_fixed v ks m w fl) (o_complete o)
